@@ -431,7 +431,9 @@ func (k c10) judgeField(c *rt.Ctx, expr *gen.Node, pairs []refstore.Pair, fn, ce
 		}
 	})
 	col := 1 + len(defs)
-	q := "select key, " + strings.Join(append(defs, gen.Print(expr)), ", ") + " where true"
+	// the pair's own text after the judged column: a function returns a value, it does not change
+	// what the next field reads (an in-place conversion inside the storage's slice would)
+	q := "select key, " + strings.Join(append(defs, gen.Print(expr)), ", ") + ", value, strlen(value) where true"
 	// reference per row
 	type exp struct {
 		v        refeval.Val
@@ -519,6 +521,12 @@ func (k c10) judgeField(c *rt.Ctx, expr *gen.Node, pairs []refstore.Pair, fn, ce
 			return
 		}
 		rec.Inc("cell:" + fn + ":" + cell + "/" + md)
+		for i := range pairs {
+			if got, want := o.Rows[i][col+1], drive.Norm([]byte(pairs[i].V)); got != want {
+				c.Violation("function-changed-the-pair-it-read", cluster, detail(rt.D{"pair": [2]string{pairs[i].K, pairs[i].V}, "value_read_by_the_next_field": got}))
+				return
+			}
+		}
 		for i := range pairs {
 			if !exps[i].ok {
 				continue
